@@ -67,6 +67,10 @@ def flow_checks(strings):
         lit = repr(s)
         try:
             run("literal in extend", s, base.extend({"t": lit}), {"d": d})
+            # a NEW column whose name is exactly the SQL text of the literal assigned to it (names are arbitrary text too)
+            sqltext = data_algebra.SQLite.SQLiteModel().value_to_sql(s)
+            if sqltext not in ("g", "s", "x") and '"' not in sqltext:
+                run("column named like its literal's SQL text", s, base.extend({sqltext: lit}), {"d": d})
             run("literal in select_rows", s, base.extend({"t": lit}).select_rows(f"t == {lit}"), {"d": d})
             run("literal in mapv value", s, base.extend({"t": f"s.mapv({{'k1': {lit}}}, 'dflt')"}), {"d": d})
             dk = d.copy()
